@@ -76,3 +76,7 @@ Section Transfer.
     (jget false (znth [] (s_action_mask s') i) a = true <-> M.legal R C (s_grid s') (znth (0, 0) (s_agents_locations s') i) a).
   Proof. intros I L Hi Ha. cbv zeta. exact (C04_mask_iff_legal c (conv (fst (step R C T pen s acts))) i a (src_step_inv s acts I L) Hi Ha). Qed.
 End Transfer.
+
+(* C03 on the translated step: never FIRST, MID with discount 1 or LAST with discount 0 (no truncation) -- any state, any action *)
+Lemma src_step_protocol (R C N T pen : Z) s acts : step_ok 1 false (snd (step R C T pen s acts)) = true.
+Proof. destruct (step_src R C N T pen s acts) as [_ E]. rewrite E. apply C03_step. Qed.
